@@ -153,29 +153,41 @@ def encode_case(case, res):
             cvs = cq_list([cq_pos(ids[c]) for c in ob["cv"]])
             rels.append("(%s, %s)" % (q, cvs))
         obs.append(cq_list(rels))
-    return "(%s, %s, %s)" % (U, cq_list(ops), cq_list(obs))
+    # identity partition of the stored set objects, per step and relation (heap-level tie)
+    ids = cq_list([cq_list([cq_list([cq_nat(x) for x in row]) for row in step]) for step in res["ids"]])
+    return "(%s, %s, %s, %s)" % (U, cq_list(ops), cq_list(obs), ids)
+
+
+PREAMBLE = ("From stdpp Require Import gmap.\n"
+            "From PV Require Import Lib.Closure Model.C17_alias Model.C17_heap.\n")
 
 
 def run_cases(ctx, cases, label):
+    """Returns (results, value-level mismatches, heap-level mismatches, impl failures).
+    One Coq evaluation checks both models (check_case_both); only failing cases are re-evaluated
+    to attribute the failure to the value-level or the heap-level model."""
     results = core.run_child(ctx, "c17", cases)
     enc = []
     bad_impl = []
     for i, (c, r) in enumerate(zip(cases, results)):
-        if "trace" not in r:
+        if "trace" not in r or "ids" not in r:
             bad_impl.append((i, r))
             enc.append(None)
         else:
             enc.append(encode_case(c, r))
-    # shard into files of <= 150 cases
     idx = [i for i, e in enumerate(enc) if e is not None]
-    bad = core.coq_eval_cases(
-        ctx, label,
-        "From stdpp Require Import gmap.\nFrom PV Require Import Lib.Closure Model.C17_alias.\n",
-        "list svar * list op * list (list obs_rel)", [enc[i] for i in idx], "check_case", shard=120)
+    bad = core.coq_eval_cases(ctx, label, PREAMBLE, "hcase", [enc[i] for i in idx], "check_case_both", shard=120)
     if bad is None:
-        return results, list(range(len(cases))), bad_impl
+        return results, list(range(len(cases))), list(range(len(cases))), bad_impl
     mism = [idx[j] for j in bad]
-    return results, mism, bad_impl
+    if not mism:
+        return results, [], [], bad_impl
+    sub = mism[:40]
+    bad_v = core.coq_eval_cases(ctx, label + "_v", PREAMBLE, "hcase", [enc[i] for i in sub], "check_case_value", shard=120)
+    bad_h = core.coq_eval_cases(ctx, label + "_h", PREAMBLE, "hcase", [enc[i] for i in sub], "check_case_heap", shard=120)
+    mism_v = mism if bad_v is None else [sub[j] for j in bad_v]
+    mism_h = mism if bad_h is None else [sub[j] for j in bad_h]
+    return results, mism_v, mism_h, bad_impl
 
 
 def small_exhaustive(depth):
@@ -230,9 +242,11 @@ def run(ctx):
         ctx.rng.shuffle(ex3)
         ex += ex3[:6000]
     cases += ex
-    results, mism, bad_impl = run_cases(ctx, cases, "hist")
+    results, mism, mism_h, bad_impl = run_cases(ctx, cases, "hist")
     ctx.oblige("correspondence:model-vs-AliasRelation", not mism and not bad_impl,
                "mismatching cases: %s; impl failures: %s" % (mism[:10], bad_impl[:3]))
+    ctx.oblige("correspondence:heap-model-vs-AliasRelation(values+object-identity)", not mism_h and not bad_impl,
+               "mismatching cases: %s; impl failures: %s" % (mism_h[:10], bad_impl[:3]))
     # oracle on every case (cheap): independent spec
     nontrivial = set()
     opcount = {"add": 0, "remove": 0, "copy": 0}
@@ -256,6 +270,13 @@ def run(ctx):
                        {"correspondence": "Model/C17_alias.v check_case vs AliasRelation",
                         "first_mismatching_history": cases[mism[0]],
                         "observed": results[mism[0]]}, no_input=True)
+    if mism_h and not ctx.violations:
+        # the heap-level model (object sharing) no longer describes the code, values still right
+        core.violation(ctx, "heap-correspondence-broken",
+                       {"correspondence": "Model/C17_heap.v check_case_heap vs AliasRelation "
+                                          "(aliases()/canonical values and identity partition of the stored set objects)",
+                        "first_mismatching_history": cases[mism_h[0]],
+                        "observed": results[mism_h[0]]}, no_input=True)
     ctx.cov["evaluations"] = len(cases)
     ctx.cov["distinct_nontrivial"] = len(nontrivial)
     ctx.cov["rule"] = ("random legal add/remove/copy histories over 2-6 names x both signs and up to 4 relations "
@@ -265,9 +286,13 @@ def run(ctx):
     ctx.notes["input_distribution"] = {"ops": opcount, "effective_removes": eff_removes,
                                        "histories": len(cases)}
     ctx.assumptions += [
-        "value-level model: copy() is the identity on values (C17_copy_equal / C17_copy_independent are proved at that "
-        "level); the sharing of Python set objects between keys and between a relation and its copy is exercised by "
-        "the correspondence check only (a shallow copy() is caught there and by the oracle)",
+        "two models: value level (copy() is the identity on values) and heap level (Model/C17_heap.v: shared mutable "
+        "set objects, in-place |=, per-key copies in copy()); C17_heap_refines proves the heap level refines the value "
+        "level in lock-step for every legal add/remove/copy history, C17_shallow_copy_refuted that a pointer-sharing "
+        "copy() does not; the heap model is tied to the code by comparing, after every op, aliases()/canonical values "
+        "AND the identity partition (id()) of the set objects stored in _aliases within and across relations",
+        "KeyError paths of remove() (self._aliases[a], del) are defaulted in both models; an exception on a generated "
+        "history is reported as an implementation violation",
         "the closure theorem C17_aliases_closure is proved for add-histories; for histories with remove/copy the "
         "invariants (C17_history_invariants) and the exact effect of remove (C17_remove) are proved, and the "
         "closure-minus-removed-classes reading is validated against the independent reference on every generated history",
